@@ -5,7 +5,8 @@
 (* ProxyFail / ProxyAck of Upload.tla, with concrete kinds and positions.       *)
 EXTENDS Naturals, Sequences, SequencesExt, Json, IOUtils, TLC
 CONSTANTS MaxAttempts
-Kinds == {"5xx-keep", "5xx-close", "reset", "close"}
+Kinds == {"5xx-keep", "5xx-close", "reset", "close",
+          "307-keep", "308-keep"}    \* the endpoint (or something in front of it) redirects the upload: a failed attempt like any other
 Pos   == {"pre", "head", "body0", "early", "limit", "past", "end"}
 Fails == {<<k, p>> : k \in Kinds, p \in Pos}
 Ack   == <<"ack", "end">>
